@@ -5,6 +5,7 @@ import Driver.C03Cmd
 import Driver.PrintCmd
 import Driver.ObjCmd
 import Driver.OrdCmd
+import Driver.UeqCmd
 /-!
 Line-protocol driver: one request per line on stdin, one reply per line on stdout.
 The first word selects the model component; see DESIGN.md §2.4.
@@ -19,6 +20,7 @@ def handle (line : String) : String :=
   | "print" :: args => printCmd args
   | "obj" :: args => objCmd args
   | "ord" :: args => ordCmd args
+  | "ueq" :: args => ueqCmd args
   | _ => "bad-op"
 
 partial def loop (hin : IO.FS.Stream) (hout : IO.FS.Stream) : IO Unit := do
